@@ -63,6 +63,7 @@ class Contract:
         self.spec_facts = False     # assume the ensures also when the call occurs inside a specification
         self.predicate_ = None      # (ghost predicate name, [param names]): "this call returns normally"
         self.measure_ = None        # termination measure of a recursive function (text over the parameters, an int >= 0)
+        self.before_call_ = {}      # callee short name -> [texts]: intermediate assertions (proved, then used) at its call sites
 
     # fluent API ---------------------------------------------------------------------------------------------
     def params(self_, **kw):
@@ -111,6 +112,12 @@ class Contract:
     def no_raise(self):
         self.never_raises = True
         self.raises_allowed = ()
+        return self
+
+    def before_call(self, callee, *texts):
+        """intermediate assertions at every call of `callee` (short name) in this function: each is an obligation of its
+        own at that point and is then available to what follows (splits a long derivation into two short ones)"""
+        self.before_call_.setdefault(callee, []).extend(texts)
         return self
 
     def measure(self, text):
